@@ -1,9 +1,15 @@
 (** C06 — another FAT implementation reads back what pyfatfs reports.  Proved: the pieces on which a second reader and
     pyfatfs must agree are the specification's — FAT entry packing for the three widths (per-entry access formula),
     the cluster -> address map and derived geometry, the date / time bit layout, the checksum and the long-name slot
-    layout.  The end-to-end statement (decode of the closed image = reported tree) is judged by the independent reader. *)
+    layout; and, on the directory level, an INDEPENDENT strictly specification-following reader written in Coq (Proofs/SpecReader.v: it
+    walks the slots in order and at a short entry looks back over the immediately preceding long-name slots, which must be
+    numbered 1..n with the last-flag on the n-th and carry the short name's checksum — it shares nothing with the model of pyfatfs'
+    own dictionary-and-sort reader) decodes from the bytes the writer lays down for ANY directory exactly the entries written
+    (C06_spec_reader), and shows for a set built by make_lfn_entry exactly the name given (C06_spec_name); entries as create builds
+    them qualify (C06_built_entries_qualify).  The end-to-end statement (decode of the closed image = reported tree) is judged by
+    the independent reader of the harness. *)
 From Coq Require Import ZArith List Bool.
-From PyFatV Require Import Base.Bytes Base.PyEnv Gen.Pure Model.Codec Model.Dir Proofs.FatCodec Proofs.Dates Proofs.Geometry Proofs.Names.
+From PyFatV Require Import Base.Bytes Base.PyEnv Gen.Pure Model.Codec Model.Dir Proofs.FatCodec Proofs.Dates Proofs.Geometry Proofs.Names Proofs.DirCodec Proofs.SpecReader.
 Import ListNotations.
 Open Scope Z_scope.
 
@@ -24,3 +30,27 @@ Theorem C06_datetime : forall y m d h mi s, 1980 <= y <= 2107 -> valid_date y m 
   Gen.serialize_date y m d = spec_date_word y m d /\ Gen.serialize_time h mi s = spec_time_word h mi s.
 Proof. intros y m d h mi s Hy Hd Ht. split; [apply (date_encode_decode y m d Hy Hd) | apply (time_encode_decode h mi s Ht)]. Qed.
 Print Assumptions C06_datetime.
+
+Theorem C06_spec_reader : forall es k f, Forall spec_entry_ok es -> (0 < k)%nat ->
+  spec_read (nslots_dir es + S f) (ser_dir es ++ repeat 0 (32 * k)) = es.
+Proof. exact spec_reads_what_was_written. Qed.
+Print Assumptions C06_spec_reader.
+Theorem C06_spec_name : forall u sfn, Forall unit_ok u -> 1 <= lenZ u <= 255 ->
+  spec_name (make_lfn u sfn) = u /\ lenZ (make_lfn u sfn) <= 63.
+Proof. exact spec_name_of_built_set. Qed.
+Print Assumptions C06_spec_name.
+Theorem C06_built_entries_qualify : forall e u, sentry_ok e -> Forall unit_ok u -> 1 <= lenZ u <= 255 ->
+  spec_entry_ok (set_lfn e (Some (make_lfn u (d_name e)))).
+Proof. exact built_entry_spec_ok. Qed.
+Print Assumptions C06_built_entries_qualify.
+(* a directory of a 30-unit long name (3 slots) and a plain 8.3 entry: the strict reader returns both, the long one with its name;
+   with the slots of the set written in ASCENDING order (the C06-m3 mutation) it falls back to the short name *)
+Definition ex06_sfn : list Z := [76;79;78;71;78;65;126;49;84;88;84].
+Definition ex06_u : list Z := map (fun k => 97 + k mod 26) (map Z.of_nat (seq 0 30)).
+Definition ex06_long : dirent := mkDirent ex06_sfn 32 0 0 0 0 0 0 0 0 5 100 (Some (make_lfn ex06_u ex06_sfn)).
+Definition ex06_short : dirent := mkDirent [65;32;32;32;32;32;32;32;84;88;84] 32 0 0 0 0 0 0 0 0 7 3 None.
+Example C06_spec_reader_example :
+  spec_read 10 (ser_dir [ex06_long; ex06_short] ++ repeat 0 64) = [ex06_long; ex06_short] /\
+  option_map spec_name (d_lfn ex06_long) = Some ex06_u /\ length (make_lfn ex06_u ex06_sfn) = 3%nat /\
+  map d_lfn (spec_read 10 (flat_map ser_lfnslot (make_lfn ex06_u ex06_sfn) ++ ser_short ex06_long ++ repeat 0 64)) = [None].
+Proof. vm_compute. repeat split; reflexivity. Qed.
